@@ -252,6 +252,29 @@ func runWithOptions(m *xpath.Machine, failAt int, debug, validate, cfgOnly bool)
 	return
 }
 
+// runDebug: the plain run of runOnceRaw with the debug option of the context API switched on
+func runDebug(m *xpath.Machine) (rr RunResult) {
+	tree := &xpm.Tree{}
+	defer func() {
+		if r := recover(); r != nil {
+			rr.Panic = fmt.Sprint(r)
+		}
+		rr.Calls = callsNorm(tree.Calls)
+	}()
+	res := xpath.NewCtxFromCurrent(context.Background(), m, &xpm.Entry{T: tree}).SetDebug(true).Run()
+	if err := res.GetError(); err != nil {
+		rr.Err = err.Error()
+	}
+	var err error
+	if rr.B, err = res.GetBoolResult(); err != nil {
+		rr.BErr = err.Error()
+	}
+	rr.N, _ = res.GetNumResult()
+	s, _ := res.GetLiteralResult()
+	rr.S = xpm.ToModel(s)
+	return
+}
+
 func resultText(res *xpath.Result) string {
 	b, e1 := res.GetBoolResult()
 	n, e2 := res.GetNumResult()
@@ -365,6 +388,7 @@ func replay(args []string) {
 	faults := fs.Bool("faults", false, "also run every vector with each data-tree callback failing in turn")
 	reverse := fs.Bool("reverse", false, "replay the vectors in reverse order (histories: a result may not depend on what ran before)")
 	results := fs.Bool("results", false, "record the observed result of the first run in every outcome")
+	debugRuns := fs.Bool("debugruns", false, "run every vector with data-tree requests once more with the debug option on: same requests, same result")
 	late := fs.Int("late", 0, "every N-th vector with data-tree requests: cancel the caller's Go context inside a callback and watch the tree and the result after Run has returned")
 	fs.Parse(args)
 	of, _ := os.Create(*out)
@@ -493,6 +517,20 @@ func replay(args []string) {
 				r3 := runOnce(id, m, 0, false)
 				if r3.Err != rr.Err || r3.B != rr.B || r3.S != rr.S || !xpm.SameFloat(r3.N, rr.N) || !sameCalls(r3.Calls, rr.Calls) {
 					o.Mism = append(o.Mism, Mism{"history", short(rr), short(r3)})
+				}
+			}
+			// the debug option is a diagnostic: the requests to the data tree and the result are those of the plain run
+			if *debugRuns && len(v.Calls) > 0 && rr.Panic == nil {
+				var rd RunResult
+				if watchdog(func() { rd = runDebug(m) }) {
+					o.Mism = append(o.Mism, Mism{"hang", "the run returns", "Run with the debug option did not return within 30 s"})
+				} else {
+					if !sameCalls(rd.Calls, rr.Calls) {
+						o.Mism = append(o.Mism, Mism{"debug-calls", callsNorm(rr.Calls), rd.Calls})
+					}
+					if rd.Err != rr.Err || rd.B != rr.B || rd.S != rr.S || !xpm.SameFloat(rd.N, rr.N) || fmt.Sprint(rd.Panic) != fmt.Sprint(rr.Panic) {
+						o.Mism = append(o.Mism, Mism{"debug-result", short(rr), short(rd)})
+					}
 				}
 			}
 			// a run is over when Run returns: with the caller's Go context cancelled inside the k-th callback (which stays in the
